@@ -662,6 +662,9 @@ func (m *sim) step(ops []*op, where string) bool {
 	burned := new(big.Int)
 	stateTouched := map[string]bool{} // accounts whose staking record may legitimately differ
 	stakeSet := map[string]*big.Int{}
+	stakeRun := map[string]*big.Int{}
+	stakeDecs := map[string]int{}
+	stakeChangeAfterTwoDecs := map[string]bool{}
 	delegSet := map[string][]pair{}
 	bondSet := map[string][]pair{}
 	slashed := map[string]bool{}
@@ -745,6 +748,20 @@ func (m *sim) step(ops []*op, where string) bool {
 			}
 		case "setStake":
 			stateTouched[fk] = true
+			// successful stake changes of one account within this block, in order (for the overdue signature)
+			cur := stakeRun[fk]
+			if cur == nil {
+				cur = new(big.Int).Set(m.prev.acc[fk].stake)
+			}
+			if o.newStake.Cmp(cur) < 0 {
+				stakeDecs[fk]++
+			} else if stakeDecs[fk] >= 2 {
+				stakeChangeAfterTwoDecs[fk] = true
+			}
+			if stakeDecs[fk] >= 3 {
+				stakeChangeAfterTwoDecs[fk] = true
+			}
+			stakeRun[fk] = o.newStake
 			stakeSet[fk] = o.newStake
 		case "setDelegation":
 			stateTouched[fk] = true
@@ -925,6 +942,26 @@ func (m *sim) step(ops []*op, where string) bool {
 			cntNow[e.expire]++
 			if cntNow[e.expire] == 2 && cntPrev[e.expire] < 2 {
 				rc.Probe("two_unstake_slots_same_expiry")
+			}
+		}
+		if stakeChanged && stakeChangeAfterTwoDecs[k] {
+			// the same shape inside ONE block: two decreases (two slots, both due at the same height: the lock
+			// period is a function of the block) followed by another stake change that merged or cancelled
+			// one of them. Block-granular observation never sees the two slots side by side.
+			was := map[string]bool{}
+			for _, e := range po.unstakes {
+				was[fmt.Sprintf("%v@%d", e.amt, e.expire)] = true
+			}
+			for _, e := range no.unstakes {
+				if !was[fmt.Sprintf("%v@%d", e.amt, e.expire)] {
+					if m.sharedExpiry[k] == nil {
+						m.sharedExpiry[k] = map[int64]bool{}
+					}
+					if !m.sharedExpiry[k][e.expire] {
+						m.sharedExpiry[k][e.expire] = true
+						rc.Probe("shared_expiry_slot_changed_within_block")
+					}
+				}
 			}
 		}
 		if stakeChanged {
